@@ -255,7 +255,7 @@ class C17Reordered(EnumCheck):
         return f"n={len(c[0])}"
 
 
-INVALIDITIES = ("estimate-above-walltime-of-its-group", "unknown-blocker", "unknown-int-blocker-in-id-range", "duplicate-name", "unknown-group", "duplicate-group", "max-nodes-differ",
+INVALIDITIES = ("estimate-above-walltime-of-its-group", "unknown-blocker", "unknown-int-blocker-in-id-range", "duplicate-entry-verbatim", "estimate-above-default-walltime", "duplicate-name", "unknown-group", "duplicate-group", "max-nodes-differ",
                 "max-nodes-second-unset", "poll-interval-first-differs",
                 "poll-interval-differ", "hpc-type-differ", "estimate-above-walltime", "missing-estimate-size0",
                 "none", "estimate-equals-walltime")
@@ -272,6 +272,16 @@ def inject(data, inv):
         if len(jobs) < 2 or not jobs[1].get("name") or any((j.get("name") or str(j["job_id"])) == str(jobs[1]["job_id"]) for j in jobs):
             return False
         jobs[0]["blocked_by"] = list(jobs[0].get("blocked_by", [])) + [jobs[1]["job_id"]]
+    elif inv == "duplicate-entry-verbatim":
+        # the same job entry twice, field for field (a copy-paste in the file): still two jobs with one name
+        jobs.append(json.loads(json.dumps(jobs[-1])))
+    elif inv == "estimate-above-default-walltime":
+        # the group leaves walltime unset (the model's default of 4 hours goes to sbatch --time); 241 minutes do not fit
+        g = jobs[0].get("submission_group", "default")
+        for gr in groups:
+            if gr["name"] == g:
+                gr["submitter_params"]["hpc_config"]["hpc"].pop("walltime", None)
+        jobs[0]["estimated_run_minutes"] = 241
     elif inv == "duplicate-name":
         if len(jobs) < 2:
             return False
